@@ -118,7 +118,8 @@ Proof.
   - exists s, p, wb3, wd3. split; [apply w_wf |]. split; [reflexivity |]. split; [exact Ep |].
     split; [right; left; reflexivity |]. split; [left; reflexivity |].
     pose proof w_v0_orphan as W. unfold final_fetch in W. rewrite E, Ep in W.
-    inversion W as [W']. intro C. rewrite C in W'. vm_compute in W'. discriminate W'.
+    inversion W as [W']. intro C. pose proof (eq_trans (eq_sym W') C) as X.
+    vm_compute in X. discriminate X.
   - exfalso. pose proof w_v0_orphan as W. unfold final_fetch in W. rewrite E, Ep in W. discriminate W.
 Qed.
 
